@@ -690,3 +690,102 @@ func (p *lockPkg) probedType() string {
 	}
 	return ""
 }
+
+// encoderMutators: which functions assign to a field of a value of the stanza encoder's type
+// (found by the names of the fields the type declares, whatever they are called): methods of
+// the type, and everything else.  A method that only reads (a String method, a getter) is not
+// listed; a Flush that resets the depth, or a reset from the session's code, is.
+func (p *lockPkg) encoderMutators(encType string) (methods, others []string) {
+	fields := map[string]bool{}
+	for _, f := range p.files {
+		for _, d := range f.Decls {
+			gd, ok := d.(*ast.GenDecl)
+			if !ok || gd.Tok != token.TYPE {
+				continue
+			}
+			for _, sp := range gd.Specs {
+				ts := sp.(*ast.TypeSpec)
+				st, ok := ts.Type.(*ast.StructType)
+				if !ok || ts.Name.Name != encType {
+					continue
+				}
+				for _, fl := range st.Fields.List {
+					for _, n := range fl.Names {
+						fields[n.Name] = true
+					}
+				}
+			}
+		}
+	}
+	// names of fields that other struct types of the package declare too are ambiguous without
+	// type information: only count them on values known to be of the encoder's type (receiver,
+	// or a local initialised with a composite literal / type assertion of that type)
+	for _, fd := range p.fds {
+		vars := map[string]bool{}
+		if recvName(fd) == encType && len(fd.Recv.List[0].Names) == 1 {
+			vars[fd.Recv.List[0].Names[0].Name] = true
+		}
+		ofEncType := func(e ast.Expr) bool {
+			if u, ok := e.(*ast.UnaryExpr); ok {
+				e = u.X
+			}
+			if cl, ok := e.(*ast.CompositeLit); ok {
+				return selString(cl.Type) == encType
+			}
+			if ta, ok := e.(*ast.TypeAssertExpr); ok && ta.Type != nil {
+				t := ta.Type
+				if s, ok := t.(*ast.StarExpr); ok {
+					t = s.X
+				}
+				return selString(t) == encType
+			}
+			return false
+		}
+		ast.Inspect(fd.Body, func(n ast.Node) bool {
+			if as, ok := n.(*ast.AssignStmt); ok && len(as.Rhs) >= 1 && ofEncType(as.Rhs[0]) {
+				if id, ok := as.Lhs[0].(*ast.Ident); ok {
+					vars[id.Name] = true
+				}
+			}
+			return true
+		})
+		mut := false
+		isField := func(e ast.Expr) bool {
+			se, ok := e.(*ast.SelectorExpr)
+			if !ok || !fields[se.Sel.Name] {
+				return false
+			}
+			id, ok := se.X.(*ast.Ident)
+			return ok && vars[id.Name]
+		}
+		ast.Inspect(fd.Body, func(n ast.Node) bool {
+			switch v := n.(type) {
+			case *ast.AssignStmt:
+				for _, l := range v.Lhs {
+					if isField(l) {
+						mut = true
+					}
+				}
+			case *ast.IncDecStmt:
+				if isField(v.X) {
+					mut = true
+				}
+			case *ast.UnaryExpr:
+				if v.Op == token.AND && isField(v.X) {
+					mut = true // address taken: may be written through the pointer
+				}
+			}
+			return true
+		})
+		if mut {
+			if recvName(fd) == encType {
+				methods = append(methods, fd.Name.Name)
+			} else {
+				others = append(others, p.fname(fd))
+			}
+		}
+	}
+	sort.Strings(methods)
+	sort.Strings(others)
+	return
+}
